@@ -1,7 +1,7 @@
 SPECIFICATION MCLifecycleSpec
 CONSTANTS
   DedupCap = 2
-  Defect_NoSessionStarted = FALSE
+  Defect_NoSessionStarted = TRUE
   Defect_CloseNoTerminal = FALSE
   Defect_SyncSpin = FALSE
   Defect_DropLateEvents = FALSE
@@ -17,7 +17,8 @@ CONSTANTS
   MaxLiveIn = 1
   MaxLiveQ = 1
 INVARIANTS
-  C22_Lifecycle
+  C22_SessionStartedFirst
+  C22_LifecycleAfterStart
   C22_NoHang
   C22_NoSpin
 VIEW NoHistView
